@@ -94,6 +94,11 @@ kw = Prog(
     "s",
 )
 
+# keyword arguments reaching a callee through the combinators
+step_kw = Prog("step_kw", ("c", "x", "scale"), (Site("z", "normal", ("c + x", "scale")),), "(z, 2.0 * z)")
+vmap_kw = Prog("vmap_kw", ("av",), (VmapCall("v", inner_kw, (0,), None, ("av",), False, (("scale", "0.5"),)),), "xp.sum(v)")
+scan_kw = Prog("scan_kw", ("a", "xs"), (ScanCall("s", step_kw, 2, "a", "xs", (("scale", "0.7"),)),), "s[0]")
+
 # two-parameter body for in_axes=(None, 0)
 two = Prog(
     "two",
@@ -239,6 +244,8 @@ FAMILY = {
     "user": (user, [(f32(0.3),)], "quick"),
     "vecparam": (vecparam, [(A(0.1, 0.7),)], "quick"),
     "kw": (kw, [(f32(0.3),)], "quick"),
+    "vmap_kw": (vmap_kw, [(A(0.1, 0.7),)], "quick"),
+    "scan_kw": (scan_kw, [(f32(0.3), A(0.5, -0.4))], "quick"),
     "call_chain": (call_chain, [(f32(0.3),)], "quick"),
     "call_disc": (call_disc, [(f32(0.3),)], "quick"),
     "vmap_indep": (vmap_indep, [(A(0.1, 0.7),)], "quick"),
@@ -278,6 +285,8 @@ ALT_ARGS = {
     "user": [(f32(-1.2),)],
     "vecparam": [(A(0.5, -0.4),)],
     "kw": [(f32(-1.2),)],
+    "vmap_kw": [(A(0.5, -0.4),)],
+    "scan_kw": [(f32(-1.2), A(1.1, 0.1))],
     "call_chain": [(f32(-1.2),)],
     "call_disc": [(f32(-1.2),)],
     "vmap_indep": [(A(0.5, -0.4),)],
